@@ -86,6 +86,9 @@ def pad_text(style, k):
     if style == "barcomment":      # comment lines that contain the characters chain continuations start with
         unit = "# a | b |> c |@d ||\n#|.e\n"
         return "#|\n" if k <= 3 else (unit * (k // len(unit) + 1))[:k - 1].rsplit("\n", 1)[0] + "\n" if k > len(unit) else "# a | b |@c\n"
+    if style == "oddcomment":      # comment lines with bytes a reader might treat specially: NUL, other control characters, DEL, multi-byte characters
+        unit = "# a\x00b\x01\x7f \u00e9 \u6f22 \x00\n"
+        return (unit * (k // len(unit) + 1))[:max(1, k - 1)].rsplit("\n", 1)[0] + "\n" if k > len(unit) else "#\x00\n"
     if style == "mixed":
         unit = " \t# x y\n"
         return (unit * (k // len(unit) + 1))[:max(1, k - 1)].rsplit("\n", 1)[0] + "\n" if k > len(unit) else "\n"
@@ -164,13 +167,13 @@ def run():
                 if b[o:o + len(lit.encode())] == lit.encode():
                     spots.append(o + lit.encode().index(b"\n"))
                     spot_kinds.append(name_)
-        STYLES = ["blank", "comment", "mixed", "spaces", "indent", "barcomment", "trailbar"]
+        STYLES = ["blank", "comment", "mixed", "spaces", "indent", "barcomment", "trailbar", "oddcomment"]
         plan = []
         if i >= ncorpus:       # generated programs: every line break x every style x small and boundary sizes
             plan = [(o, st, k) for o in spots for st in STYLES for k in (1, 3, 1024, 2049)]
         else:
             chain_spots = [o for (o, nm) in zip(spots, spot_kinds) if nm != "RET"][:3]
-            plan = [(o, st, rng.choice([1, 2, 3, 1025])) for o in chain_spots for st in ("indent", "mixed", "comment", "barcomment", "trailbar")]
+            plan = [(o, st, rng.choice([1, 2, 3, 1025])) for o in chain_spots for st in ("indent", "mixed", "comment", "barcomment", "trailbar", "oddcomment")]
             for o in rng.sample(spots, min(nsel_pos, len(spots))):
                 for _ in range(nsel_pad):
                     plan.append((o, rng.choice(STYLES), rng.choice(SIZES)))
